@@ -395,21 +395,27 @@ func Verif_C22_Unwrite() {
 	var b Builder
 	var out []byte
 	var err error
-	panicked := verifrt.Panics(func() {
+	// The panic is observed on the Unwrite call itself (a refused Unwrite leaves the builder
+	// untouched, so building continues): a later "internal error" panic from flushChild after
+	// an Unwrite that ate the length prefix would be a different, wrong behaviour.
+	panicked := false
+	other := verifrt.Panics(func() {
 		if inChild {
 			b.AddBytes(pfx)
 			c22Node(&b, kind, asn1.SEQUENCE, func(c *Builder) {
 				c.AddBytes(data)
-				c.Unwrite(n)
+				panicked = verifrt.Panics(func() { c.Unwrite(n) })
 			})
 		} else {
 			b.AddBytes(data)
-			b.Unwrite(n)
+			panicked = verifrt.Panics(func() { b.Unwrite(n) })
 		}
 		out, err = b.Bytes()
 	})
+	verifrt.Assert(!other, "Unwrite: nothing but the Unwrite call itself panics")
 	verifrt.Assert(panicked == (n < 0 || n > k), "Unwrite panics iff n<0 or n exceeds the bytes written in the current child")
 	if panicked {
+		verifrt.Assert(err == nil, "refused Unwrite leaves the builder usable")
 		verifrt.Reach("unwrite-panic")
 		return
 	}
